@@ -2,6 +2,7 @@
 // args: <grid spec> <history> <xmode>
 //  history: 0 fresh loaded | 1 loaded + pending refinement | 2 merged refinement + coefficient overwrite | 3 partially finished construction | 4 coefficient overwrite
 //  xmode: 0 batch of concrete points (nodes, interior, boundary, support edges) | 1 one symbolic point x in the domain
+//         2 a batch of <size> concrete pseudo-random points (4th argument; batch sizes around the block size 32 of the sparse assembly)
 #include "tgrid.hpp"
 
 static double domLo(const GridSpec &g, int j){ if (g.transform) return g.ta[j]; return g.family == "fourier" ? 0.0 : -1.0; }
@@ -89,6 +90,9 @@ int main(int argc, char **argv){
   std::vector<double> xs;
   if (xmode == 1){
     for (int j=0;j<d;j++) xs.push_back(fpsym_symbolic(domLo(g, j) + (0.37 + 0.11 * j) * (domHi(g, j) - domLo(g, j)), 1 + j, domLo(g, j), domHi(g, j)));
+  } else if (xmode == 2){
+    int bs = argc > 4 ? atoi(argv[4]) : 32; unsigned long long lcg = 88172645463325252ULL;
+    for (int i=0;i<bs;i++) for (int j=0;j<d;j++){ lcg = lcg * 6364136223846793005ULL + 1442695040888963407ULL; double u = (double) (lcg >> 11) / 9007199254740992.0; xs.push_back(domLo(g, j) + u * (domHi(g, j) - domLo(g, j))); }
   } else {
     for (int i=0;i<std::min(n, 2);i++) for (int j=0;j<d;j++) xs.push_back(loaded_pts[(size_t) i * d + j]);                        // nodes
     for (int j=0;j<d;j++) xs.push_back(domLo(g, j) + (0.37 + 0.11 * j) * (domHi(g, j) - domLo(g, j)));                              // interior
